@@ -364,7 +364,8 @@ pub fn gen_scen(rng: &mut Rng, _thorough: bool) -> Scen {
                 let mut sc = base_scen("kill-zero");
                 sc.opts = vec![s("-n"), n.to_string(), s("-k"), s(*rng.pick(&["0ms", "0s"])), s("--num-concurrent"), (1 + rng.below(2)).to_string()];
                 sc.plan = json!({"default": {"wait": true, "value_of_seed": "neg", "fork": *rng.pick(&["none", "keep"]), "ignore_term": rng.chance(1, 2)}});
-                sc.expect = json!({"exit": "fail", "starts": n, "survivors": 0, "stdoutLines": 0});
+                // (a child may be killed before it has written its start record: the number of starts is not judged here)
+                sc.expect = json!({"exit": "fail", "survivors": 0, "stdoutLines": 0});
                 return sc;
             }
             if rng.chance(1, 6) {
@@ -466,12 +467,12 @@ pub fn gen_scen(rng: &mut Rng, _thorough: bool) -> Scen {
                 sc.expect = json!({"noCrash": true, "survivors": 0, "verbose": verbose, "starts": 40});
                 return sc;
             }
-            let out = match rng.below(11) {
+            let out = match rng.below(14) {
                 0 => json!({"stdout": "{\"objFuncVal\": 1.5}"}), 1 => json!({"stdout": "{\"objFuncVal\": null}"}), 2 => json!({"stdout": "{}"}),
                 3 => json!({"stdout": "{\"objFuncVal\": 2}", "pad": 1_000_000}), 4 => json!({"stdout_hex": "fffe00"}), 5 => json!({"stdout": "{\"objFuncVal\": "}),
                 6 => json!({"stdout": ""}), 7 => json!({"stdout": "{\"objFuncVal\": -1e300}"}),
                 // a child that answers and is then killed by a signal (no exit code to report)
-                9 => json!({"stdout": "{\"objFuncVal\": 1.5}", "self_signal": *rng.pick(&[9, 11, 40])}), 10 => json!({"stdout": "", "self_signal": 6}),
+                9 | 11 | 12 => json!({"stdout": "{\"objFuncVal\": 1.5}", "self_signal": *rng.pick(&[9, 11, 40])}), 10 | 13 => json!({"stdout": "", "self_signal": 6}),
                 _ => json!({"stdout": "[1]"}),
             };
             let err = match rng.below(6) { 0 => json!(""), 1 => json!(hex(b"some warning\n")), 2 => json!("fffefd80"), 3 => json!(hex(&vec![b'x'; 100_000])),
